@@ -130,7 +130,7 @@ func installOSFaults(plans []OSFaultPlan, out *sim.Outcome, removes *[]string) f
 
 func (C06) ID() string { return "C06" }
 func (C06) Rule() string {
-	return "(image) 1-3 layer archives whose entry names and link targets are assembled from '..', '.', '', '/', a 300-byte component, names of the sandbox's decoy siblings (target-evil, targetX: string prefix of the target), outside, cwd, tmp, and the names of links declared earlier; regular, directory, symlink and hard-link entries in any order and layer, plus seeded attack sequences (link chain 'up -> .', 'esc -> up/..' then a write 0-2 levels below it; file then entry beneath it; link with empty target; dot-dot names into decoys); faults: layer reader error at byte k, truncated archive, and (tier 2, 1 in 3 scenarios) 1-2 OS-call failures inside image.go / unpack.go through the build-time overlay: the k-th MkdirTemp / Mkdir / MkdirAll / OpenFile / Create / WriteFile / Symlink fails with ENOSPC / EMFILE / EACCES, io.Copy fails after n bytes; names and link targets that are the absolute HOST paths of sandbox files / an empty directory ($SANDBOX/...); loader requirer all / none / path list; entry points FromV1Image, FromTarball (+CleanUp), UnpackSquashed, UnpackSquashedFromTarball into sandbox/target; the WHOLE jail (target, decoys, outside, cwd, TMPDIR, harness inputs, 8 directory levels above) is snapshotted (type, link target, size, mode, hash) before and after every call; every os.Remove / os.RemoveAll issued by image.go / unpack.go is recorded through the overlay and must point into TMPDIR (or the unpack target); 1 in 9 scenarios: a well-formed image holding a PE-named file and a package database is loaded and scanned with Scanner.ScanContainer (real dotnet/pe extractor + a harness extractor using ScanInput.GetRealPath as documented): the scan must leave every view readable with the same content and the whole jail unchanged; evaluation = one call sequence on one scenario; non-trivial = at least one entry name or link target lexically or through a link leaves the root, or a fault (reader or OS call) fired; distinct = distinct scenario JSON"
+	return "(image) 0-3 layer archives (0 = an image without layers, with or without history entries) whose entry names and link targets are assembled from '..', '.', '', '/', a 300-byte component, names of the sandbox's decoy siblings (target-evil, targetX: string prefix of the target), outside, cwd, tmp, and the names of links declared earlier; regular, directory, symlink and hard-link entries in any order and layer, plus seeded attack sequences (link chain 'up -> .', 'esc -> up/..' then a write 0-2 levels below it; file then entry beneath it; link with empty target; dot-dot names into decoys); faults: layer reader error at byte k, truncated archive, and (tier 2, 1 in 3 scenarios) 1-2 OS-call failures inside image.go / unpack.go through the build-time overlay: the k-th MkdirTemp / Mkdir / MkdirAll / OpenFile / Create / WriteFile / Symlink fails with ENOSPC / EMFILE / EACCES, io.Copy fails after n bytes; names and link targets that are the absolute HOST paths of sandbox files / an empty directory ($SANDBOX/...); loader requirer all / none / path list; entry points FromV1Image, FromTarball (+CleanUp), UnpackSquashed, UnpackSquashedFromTarball into sandbox/target; the WHOLE jail (target, decoys, outside, cwd, TMPDIR, harness inputs, 8 directory levels above) is snapshotted (type, link target, size, mode, hash) before and after every call; every os.Remove / os.RemoveAll issued by image.go / unpack.go is recorded through the overlay and must point into TMPDIR (or the unpack target); 1 in 9 scenarios: a well-formed image holding a PE-named file and a package database is loaded and scanned with Scanner.ScanContainer (real dotnet/pe extractor + a harness extractor using ScanInput.GetRealPath as documented): the scan must leave every view readable with the same content and the whole jail unchanged; evaluation = one call sequence on one scenario; non-trivial = at least one entry name or link target lexically or through a link leaves the root, or a fault (reader or OS call) fired; distinct = distinct scenario JSON"
 }
 
 var c06Segs = []string{"..", "..", ".", "", "a", "b", "up", "esc", "sub", "target-evil", "targetX", "outside", "cwd", "tmp", "target", "keep.txt", "victim.txt", "poc.txt", "LONG", "n"}
@@ -205,7 +205,7 @@ func (C06) Gen(rt *rapid.T, tier string) any {
 	if sc.Op == "scan" {
 		return genC06Scan(rt, sc)
 	}
-	nl := rapid.IntRange(1, 3).Draw(rt, "layers")
+	nl := rapid.SampledFrom([]int{0, 1, 1, 1, 2, 2, 3}).Draw(rt, "layers") // 0: an image without any layer
 	if sc.Op == "unpack-tar" {
 		nl = 1
 	}
@@ -335,7 +335,7 @@ func (C06) Run(t *testing.T, scAny any) *sim.Outcome {
 		ctxs = ctxs[:1500] + "..."
 	}
 	out.Sample = ctxs
-	if len(sc.Image.Layers) == 0 || dotDotTotal(&sc.Image) > maxDotDot {
+	if (len(sc.Image.Layers) == 0 && (sc.Op == "unpack-tar" || sc.Op == "scan")) || dotDotTotal(&sc.Image) > maxDotDot {
 		out.Count("skipped_invalid_scenario", 1)
 		return out
 	}
